@@ -478,8 +478,9 @@ func (g *Genome) mateSinglePoint(og *Genome, genomeId int) (*Genome, error) {
 
 	var chosenGene *Gene
 	geneCounter, i1, i2 := 0, 0, 0
-	// Now move through the Genes of each parent until both genomes end
-	for i2 < stopper {
+	// Now move through the Genes of each parent until both genomes end. The larger genome may run out first in
+	// innovation order: the walk then goes on while the smaller one still holds genes before the crossPoint
+	for i2 < stopper || (i1 < p1stop && geneCounter < crossPoint) {
 		skip := false
 		avgGene.IsEnabled = true // Default to true
 		if i1 == p1stop {
@@ -488,6 +489,7 @@ func (g *Genome) mateSinglePoint(og *Genome, genomeId int) (*Genome, error) {
 		} else if i2 == p2stop {
 			chosenGene = p1genes[i1]
 			i1++
+			geneCounter++
 		} else {
 			p1gene := p1genes[i1]
 			p2gene := p2genes[i2]
